@@ -28,6 +28,8 @@ def check(ctx):
     f = c02.kernel_facts(ctx)
     c02.check_types(ctx, f)
     c02.check_wrappers(ctx)
+    rep.rule('M8', 'the Python entry points hand both operands (gated, uncrossed) to the kernel and return its value on every path - no shortcut that could break identity / symmetry')
+    c02.check_dtype_gate(ctx)
     fi, loop = f['fi'], f['loop']
     ci, cj = f['ci'], f['cj']
     # loop condition
@@ -68,6 +70,8 @@ VARIANTS = [
     V('second argument shares the first fused type', 'B', _M, "def jaccarddist(COORDS_T[:] coords1, COORDS_T_2[:] coords2):",
       "def jaccarddist(COORDS_T[:] coords1, COORDS_T[:] coords2):", 'M6'),
     V('wrapper swaps nothing but drops an operand', 'B', _M, "\treturn c_jaccarddist(coords1, coords2)\n", "\treturn c_jaccarddist(coords1, coords1)\n", 'M7'),
+    V('disjoint-range shortcut with <= in the Python wrapper (seeded C15a)', 'B', 'src/gambit/metric.py', "\tcoords1 = _cast_sigs_array(coords1)\n\tcoords2 = _cast_sigs_array(coords2)\n\treturn _cmetric.jaccarddist(coords1, coords2)",
+      "\tcoords1 = _cast_sigs_array(coords1)\n\tcoords2 = _cast_sigs_array(coords2)\n\tif len(coords1) and len(coords2) and (coords1[-1] <= coords2[0] or coords2[-1] <= coords1[0]):\n\t\treturn 1.\n\treturn _cmetric.jaccarddist(coords1, coords2)", 'M7'),
     V('E: symmetric rewrite', 'E', _M, "\t\tif a <= b:\n\t\t\ti += 1\n\n\t\tif b <= a:\n\t\t\tj += 1\n",
       "\t\tif b <= a:\n\t\t\tj += 1\n\n\t\tif a <= b:\n\t\t\ti += 1\n"),
     V('E: tail terms commuted', 'E', _M, "\tu += N - i\n\tu += M - j\n", "\tu += M - j\n\tu += N - i\n"),
